@@ -274,6 +274,10 @@ func (tp *ethTxPool) CheckAndAdd(tx *etypes.Transaction, rawTx types.Tx) error {
 	if currentNonce > tx.Nonce() {
 		return fmt.Errorf("nonce(%d) different with getNonce(%d)", tx.Nonce(), currentNonce)
 	}
+	// a transaction with this nonce is already offered for inclusion: a second one could never be promoted
+	if pending := tp.pending[from]; pending != nil && pending.Get(tx.Nonce()) != nil {
+		return fmt.Errorf("nonce(%d) already pending", tx.Nonce())
+	}
 
 	if err := tp.addWaiting(tx, from); err != nil {
 		return err
@@ -400,6 +404,9 @@ func (tp *ethTxPool) promoteExecutables(addrs []common.Address) {
 			// pending is not full, add
 			if err := tp.pending[addr].Add(tx); err == nil {
 				pendingTxCount++
+			} else {
+				// it left the waiting queue and cannot enter pending: forget it, or it stays in `all` for ever
+				delete(tp.all, tx.Hash())
 			}
 		}
 	}
